@@ -31,6 +31,18 @@ def cases(tier, seed):
         child = gen.random_circuit(rng, n_in=rng.randint(1, 3), n_gates=rng.randint(1, 3), max_fanin=3, p_const=0.3,
                                    n_bb=rng.choice([0, 0, 0, 1]), p_out=0.5, allow_input_output=rng.random() < 0.3,
                                    name="child")
+        inst = rng.choice(["s", "u0", "i0", "core.u0", "a.b"])
+        if rng.random() < 0.3:
+            # parent io / gates whose names already start with "<instance>_" (alu_en next to an instance alu)
+            cnames = {r[0] for r in child["nodes"]}
+            plain = [r[0] for r in parent["nodes"] if "." not in r[0]]
+            ren = {}
+            for victim in rng.sample(plain, min(len(plain), rng.randint(1, 2))):
+                new = f"{inst}_{rng.choice(['en', 'valid', 'x9', 'q'])}"
+                if new not in ren.values() and new[len(inst) + 1:] not in cnames and new not in plain:
+                    ren[victim] = new
+            r_ = lambda n: ren.get(n, n)
+            parent = dict(parent, nodes=[[r_(n), t, o] for n, t, o in parent["nodes"]], edges=[[r_(u), r_(v)] for u, v in parent["edges"]])
         pnames = [r[0] for r in parent["nodes"] if r[1] not in ("bb_input",)]
         cin = [r[0] for r in child["nodes"] if r[1] == "input"]
         cout = [r[0] for r in child["nodes"] if r[2] and r[1] != "input"]
@@ -46,7 +58,7 @@ def cases(tier, seed):
                 k += 1
                 outbufs.append(b)
                 conns[o] = b
-        yield {"f": "add_subcircuit", "parent": parent, "child": child, "name": rng.choice(["s", "u0", "i0", "core.u0", "a.b"]),
+        yield {"f": "add_subcircuit", "parent": parent, "child": child, "name": inst,
                "conns": conns, "outbufs": outbufs, "twice": rng.random() < 0.3}
     for i in range(n):
         child = gen.random_circuit(rng, n_in=rng.randint(1, 3), n_gates=rng.randint(1, 3), max_fanin=3, p_const=0.2,
